@@ -86,7 +86,8 @@ def _statmech_kwargs(rnd, gas, nmodes=None, kind='vib'):
     kw.update(vib_model=vib.HarmonicVib, vib_wavenumbers=wn)
     if gas:
         linear = rnd.random() < 0.3
-        kw.update(trans_model=trans.FreeTrans, n_degrees=3, molecular_weight=rnd.choice([1.008, rnd.uniform(1, 500)]),
+        kw.update(trans_model=trans.FreeTrans, n_degrees=rnd.choice([3, 3, 3, 2, 1]),
+                  molecular_weight=rnd.choice([1.008, rnd.uniform(1, 500)]),
                   rot_model=rot.RigidRotor, symmetrynumber=rnd.choice([1, 2, 3, 6, 12]),
                   rot_temperatures=[10 ** rnd.uniform(-2, 2) for _ in range(1 if linear else 3)],
                   geometry='linear' if linear else 'nonlinear')
@@ -304,10 +305,10 @@ def execute(case):
             # five points the low segment's quartic is not determined by the data, so "reproduces the generating
             # polynomial" cannot be demanded of any fit if that guess is taken (a false alarm of an earlier version:
             # seed 3, ExactRecoveryH/S 2e-4 with T_mid on the second data point)
-            if k < 0.35 and model is not None and src not in ('const', 'zero'):
+            if k < 0.5 and model is not None and src not in ('const', 'zero'):
                 guesses = [float(T[rnd.randrange(1, 4)]), brk[0],
                            float(T[rnd.randrange(len(T) // 2, max(len(T) // 2 + 1, len(T) - 10))])]
-            elif k < 0.7:                            # several interior guesses, ascending
+            elif k < 0.8:                            # several interior guesses, ascending
                 guesses = sorted({float(T[rnd.randrange(4, len(T) - 5)]) for _ in range(3)} | {brk[0]})
         if case['tmid'] == 'scalar':
             v = brk[0]
@@ -556,6 +557,7 @@ def run(ctx):
                          'segment 1 and the segment records are not aliased (MC_Fit_first_char)')
         cfgs, r = core.tlc_cases('FitCases', 'FitCases')
         ctx.coverage['tlc_configurations'] = len(cfgs)
+        _unit_table()
         cases, admissible = _build_cases(ctx, cfgs, rnd)
     results = core.pmap(_safe, cases)
     traces = []
@@ -621,6 +623,17 @@ def run(ctx):
                'determine its Cp polynomial (5 for NASA-7 and Shomate, 7 for NASA-9); under-determined fits are '
                'outside the quantifier')
     ctx.assume('T is a numpy array for Nasa.from_data (documented type); NASA-9 break lists are ascending')
+
+
+def _unit_table():
+    """'every Shomate fitting unit' is the table inside constants.R: UNITS must list all of its /K keys"""
+    import inspect
+    import re
+    from pmutt import constants as c
+    keys = set(re.findall(r"'([^']+/K)'\s*:", inspect.getsource(c.R)))
+    if keys and keys != set(UNITS):
+        raise core.MachineryError('the unit table of constants.R changed; UNITS is out of date: %r'
+                                  % sorted(keys ^ set(UNITS)))
 
 
 def _vacuity(cov, admissible):
